@@ -143,4 +143,16 @@ PROPS = {
                 "own database; horizon create(live namesake)-1 or now-1; entries exactly for names with a dropped incarnation). non-trivial = a name with both a dropped and a live incarnation, or the same collection name in >= 2 databases; distinct = distinct catalog",
         "assumptions": ["a namesake in Creating state is accepted as live (create-1) or absent (now-1)", "tombstoned records carry no name and are invisible"],
     },
+    "C10": {
+        "pkg": "hserver", "test": "TestC10", "level": "exploration",
+        "quick": T(16, 100, timeout=900), "thorough": T(16, 2500, timeout=7000),
+        "rule": "rapid state machine over the REAL HTTP handler + MetaCDC (real etcd meta store, fake downstream Milvus gRPC servers, 2 targets, task limit 4): create with specification db in {default (implicit or explicit), db1, db2, *} x collection in {c1, c2, *}, "
+                "optional name mapping (valid or not covered by the specification), enable_user_role, create with one transient store failure injected at a drawn store call (task list read, task record write, state update, checkpoint read = a failed create after the bookkeeping was updated), delete, restart (new incarnation + ReloadTask). "
+                "After every step: per target every (database, collection) of a 4x3 universe is selected by at most one task on the data path (GetShouldReadFunc) and on the DDL path (GetCollectionInfos+MatchCollection), both paths agree, a new task selects everything of its specification no other task names and nothing another task selects, "
+                "selections never change afterwards, rejected creates leave bookkeeping (and, without injected fault, the store) unchanged, and the duplicate bookkeeping equals a reference computed from the persisted tasks. "
+                "non-trivial = a create was accepted although its specification overlaps what another task of the target replicates (exclusion path); distinct = distinct history",
+        "assumptions": ["collectionNames.nameMapping is write-only in the code (no reader) and not compared",
+                        "names another task owns nominally through a wildcard but has itself excluded may or may not be selected by a new task (statement silent); the observed choice must stay constant",
+                        "with an injected store failure the store content is not required to be unchanged (records written before the failure); the task list is"],
+    },
 }
